@@ -243,6 +243,21 @@ func c04Enum(ctx *ev.Ctx, fn func(*Config, C04Case)) string {
 				emit(c, a, b)
 			}
 		}
+		// wide groups: a grouped member that sits behind many other members (at top level and one
+		// level down) - nesting depth stays 2 or 3, only the member count grows
+		if len(c.A.Groups) > 1 && len(full) > 0 {
+			leaf := full[0]
+			for _, lead := range []int{0, 1, 7, 15, 16, 17, 30, 31, 32, 33, 40, 63, 64, 65, 100, 255, 256, 257} {
+				var kids []WRec
+				for i := 0; i < lead; i++ {
+					kids = append(kids, leaf)
+				}
+				inner := c.wgroup(1, []WRec{leaf, tail})
+				emit(c, c.wgroup(0, append(append([]WRec{}, kids...), inner, tail)))
+				emit(c, c.wgroup(0, append(append([]WRec{}, kids[:lead/2]...), c.wgroup(1, append(append([]WRec{}, kids[lead/2:]...), c.wgroup(0, []WRec{leaf}), tail)))), tail)
+				emit(c, append(append([]WRec{}, kids...), inner, tail)...)
+			}
+		}
 		// inside groups: depth 1 and 2 (thorough 3)
 		if len(c.A.Groups) > 0 {
 			for _, a := range full {
@@ -461,7 +476,7 @@ func runC04(ctx *ev.Ctx) {
 			ctx.Report("", generalise(what), what+" | case: "+mc.Desc(), mc)
 		}
 	})
-	ctx.Rule += " Every top-level record of every accepted body is also decoded with the exported AVP.DecodeFromBytes into ONE AVP value that held a vendor-specific AVP first and then every earlier record, and compared with a fresh decode of the same bytes."
+	ctx.Rule += " Wide containers: a grouped AVP behind 0..257 sibling members (counts around 16, 32, 64 and 256), at top level, inside a group and two levels down. Every top-level record of every accepted body is also decoded with the exported AVP.DecodeFromBytes into ONE AVP value that held a vendor-specific AVP first and then every earlier record, and compared with a fresh decode of the same bytes."
 	ctx.Assume = []string{"reference framer (refcodec.Frame) walks by pad4(declared length) only", "a by-Length decoder accepts a sequence iff it accepts each record on its own (used to tell a legitimate value rejection from a framing error)"}
 }
 
